@@ -898,9 +898,12 @@ impl Stdfs {
     /// assert_vfs_remove_all!(vfs, &tmpdir);
     /// ```
     pub fn is_dir<T: AsRef<Path>>(path: T) -> bool {
-        match fs::symlink_metadata(path.as_ref()) {
-            Ok(x) => !x.file_type().is_symlink() && x.is_dir(),
-            _ => false,
+        match Stdfs::abs(path) {
+            Ok(abs) => match fs::symlink_metadata(abs) {
+                Ok(x) => !x.file_type().is_symlink() && x.is_dir(),
+                _ => false,
+            },
+            Err(_) => false,
         }
     }
 
@@ -921,9 +924,12 @@ impl Stdfs {
     /// assert_vfs_remove_all!(vfs, &tmpdir);
     /// ```
     pub fn is_file<T: AsRef<Path>>(path: T) -> bool {
-        match fs::symlink_metadata(path.as_ref()) {
-            Ok(x) => !x.file_type().is_symlink() && x.is_file(),
-            _ => false,
+        match Stdfs::abs(path) {
+            Ok(abs) => match fs::symlink_metadata(abs) {
+                Ok(x) => !x.file_type().is_symlink() && x.is_file(),
+                _ => false,
+            },
+            Err(_) => false,
         }
     }
 
